@@ -422,6 +422,34 @@ impl<S: futures::AsyncRead + futures::AsyncWrite + Unpin> ConnectionReader<S> {
             info_hashes.push(info_hash);
         }
 
+        // No info hashes: no swarm worker will respond, so do it right away
+        if info_hashes_by_worker.is_empty() {
+            let pending_scrape_id: u8 = self
+                .pending_scrape_slab
+                .borrow_mut()
+                .insert(PendingScrapeResponse {
+                    pending_worker_out_messages: 1,
+                    stats: Default::default(),
+                })
+                .try_into()
+                .with_context(|| "Reached 256 pending scrape responses")?;
+
+            let meta = self.make_connection_meta(Some(PendingScrapeId(pending_scrape_id)));
+
+            let out_message = OutMessage::ScrapeResponse(ScrapeResponse {
+                action: ScrapeAction::Scrape,
+                files: Default::default(),
+            });
+
+            return self
+                .out_message_sender
+                .send((meta.into(), out_message))
+                .await
+                .map_err(|err| {
+                    anyhow::anyhow!("ConnectionReader::handle_scrape_request failed: {:#}", err)
+                });
+        }
+
         let pending_worker_out_messages = info_hashes_by_worker.len();
 
         let pending_scrape_response = PendingScrapeResponse {
